@@ -663,7 +663,9 @@ func createConnHandler(
 				return err
 			}
 			if inErr == nil {
-				if err := clientStream.SendMsg(args); err != nil {
+				// io.EOF: the backend has already ended the call, RecvMsg
+				// below reports the status it ended with.
+				if err := clientStream.SendMsg(args); err != nil && err != io.EOF {
 					return err
 				}
 			}
